@@ -5,6 +5,6 @@ CONSTANTS FallbackMode = "last"
  WaitMode = "none"
  MaxP = 2
  MaxB = 1
- MaxDeaf = 2
+ MaxDeaf = 1
 PROPERTIES SuccessIfAny CancelPrompt Terminates
 CHECK_DEADLOCK FALSE
